@@ -164,15 +164,21 @@ func runC02(c *Ctx) {
 		}
 	})
 
-	// ---- R-C02-DETACH
+	detachRule(c, "R-C02-DETACH", tbOf, locks)
+}
+
+// detachRule: lockedMap.Update/Del yield a stored value only after mutating that key,
+// with the shard write lock held from the lookup to the mutation (shared by C02 and C04).
+func detachRule(c *Ctx, ruleID string, tbOf func(*ssa.Function) *TB, locks func() *LockCtx) {
+	L, P := c.L, c.P
 	for _, name := range []string{"Update", "Del"} {
 		name := name
-		c.Group("R-C02-DETACH", "lockedMap."+name, func() {
+		c.Group(ruleID, "lockedMap."+name, func() {
 			fn := P.Fn("ristretto", "lockedMap", name)
 			tb := tbOf(fn)
 			lks := lookupsOf(fn, tb, dataPat)
 			if len(lks) != 1 {
-				L.Undecided("R-C02-DETACH", "lockedMap."+name, "expected one lookup of m.data", fn.Pos())
+				L.Undecided(ruleID, "lockedMap."+name, "expected one lookup of m.data", fn.Pos())
 				return
 			}
 			lk := lks[0]
@@ -201,7 +207,7 @@ func runC02(c *Ctx) {
 					if ft == "c[false]" {
 						yields = false
 					} else if ft != "c[true]" {
-						L.Undecided("R-C02-DETACH", "lockedMap.Update", "found result is not constant: "+ft, r.Pos())
+						L.Undecided(ruleID, "lockedMap.Update", "found result is not constant: "+ft, r.Pos())
 						ok = false
 						continue
 					} else {
@@ -214,30 +220,30 @@ func runC02(c *Ctx) {
 				nYield++
 				want := "fld[value](" + tb.T(lk).String() + ")"
 				if got := tb.T(rv[valIdx]).String(); got != want {
-					L.Fail("R-C02-DETACH", "lockedMap."+name, "yields "+got+" as the detached value, want the old entry's value "+want, r.Pos())
+					L.Fail(ruleID, "lockedMap."+name, "yields "+got+" as the detached value, want the old entry's value "+want, r.Pos())
 					ok = false
 					continue
 				}
 				// every path lookup -> this return passes the mutation
 				bad, path := reach(after(lk), isInstr(r), isMut, nil)
 				if bad != nil {
-					L.Fail("R-C02-DETACH", "lockedMap."+name, "returns the stored value on a path that did not remove/replace the entry (block path "+pathString(path)+"): the value stays retrievable after being reported", r.Pos())
+					L.Fail(ruleID, "lockedMap."+name, "returns the stored value on a path that did not remove/replace the entry (block path "+pathString(path)+"): the value stays retrievable after being reported", r.Pos())
 					ok = false
 				}
 			}
 			if nYield == 0 {
-				L.Fail("R-C02-DETACH", "lockedMap."+name, "no return yields the detached value", fn.Pos())
+				L.Fail(ruleID, "lockedMap."+name, "no return yields the detached value", fn.Pos())
 				return
 			}
 			// write lock held at the lookup and at each mutation, no release in between
 			li := locks().infos[fn]
 			if !li.Before[lk].HasClass("lockedMap.RWMutex", "W") {
-				L.Fail("R-C02-DETACH", "lockedMap."+name, "lookup of the entry is not under the shard write lock (held: "+li.Before[lk].String()+")", lk.Pos())
+				L.Fail(ruleID, "lockedMap."+name, "lookup of the entry is not under the shard write lock (held: "+li.Before[lk].String()+")", lk.Pos())
 				ok = false
 			}
 			eachInstr(fn, func(in ssa.Instruction) {
 				if isMut(in) && !li.Before[in].HasClass("lockedMap.RWMutex", "W") {
-					L.Fail("R-C02-DETACH", "lockedMap."+name, "mutation of the entry is not under the shard write lock", in.Pos())
+					L.Fail(ruleID, "lockedMap."+name, "mutation of the entry is not under the shard write lock", in.Pos())
 					ok = false
 				}
 			})
@@ -250,11 +256,11 @@ func runC02(c *Ctx) {
 				return false
 			}, isMut, nil)
 			if rel != nil {
-				L.Fail("R-C02-DETACH", "lockedMap."+name, "shard lock is released between the lookup and the mutation", rel.Pos())
+				L.Fail(ruleID, "lockedMap."+name, "shard lock is released between the lookup and the mutation", rel.Pos())
 				ok = false
 			}
 			if ok {
-				L.Ok("R-C02-DETACH", "lockedMap."+name, fmt.Sprintf("%d value-yielding return(s), each after the mutation of %s, write lock held throughout", nYield, keyT), lk.Pos())
+				L.Ok(ruleID, "lockedMap."+name, fmt.Sprintf("%d value-yielding return(s), each after the mutation of %s, write lock held throughout", nYield, keyT), lk.Pos())
 			}
 		})
 	}
